@@ -149,6 +149,11 @@ def falsify(ctx, deep=False):
             p.update({"kind": "vk", "nx": 8, "ps": 1, "r0": 1.0, "L0": 20.0, "extra": 1, "family": False})       # integer pixel scale
         if k == 3:
             p.update({"kind": "fried", "nx": 6, "ps": 2, "r0": 1.5, "L0": 30.0, "extra": 2, "family": False})
+        if k == 4:
+            # a screen taller than 64 rows over a history of three times its length
+            p.update({"kind": "vk", "nx": rng.choice([70, 80, 97]), "ps": 0.1, "r0": 0.2, "L0": 25.0, "extra": rng.choice([1, 2]), "family": False, "long": True})
+        if deep and k == 5:
+            p.update({"kind": "fried", "nx": rng.choice([40, 65]), "ps": 0.1, "r0": 0.2, "L0": 25.0, "extra": 1, "family": False, "long": True})
         if k == 1:
             # near the edge of what the Cholesky factorisation accepts (huge outer scale in pixels): known finding
             p.update({"kind": "vk", "nx": 8, "ps": 0.05, "r0": 0.1, "L0": 2000.0, "extra": 2, "family": False})
